@@ -4,6 +4,7 @@ import SJ.Proofs.RenderParse
 import SJ.Proofs.Escape
 import SJ.Proofs.WalkSafe
 import SJ.Proofs.MarshalExact
+import SJ.Proofs.GoEscape
 /-
 C10 — MarshalJSON emits valid JSON denoting the same document.
 -/
@@ -117,5 +118,16 @@ theorem C10_negzero_not_fixed :
     (renderJ (.arr (.cons (.float negZero 0) .nil))).toList = [91, 45, 48, 93] ∧
     Spec.containerText [91, 45, 48, 93] = .accept (.arr [.num (.int 0)]) ∧
     (renderJ (ofSpec (.arr [.num (.int 0)]))).toList = [91, 48, 93] := negZero_not_fixed
+
+open SJ.GoSem SJ.Generated SJ.GoEscape in
+/-- **Source tie** (DESIGN §6.3). `escapeBytes` (`parsed_json.go`) is printed from /repo as a syntax tree on every run.
+    Its meaning under `GoSem.exec` — the scan for the first byte that needs escaping, the bulk copy of the clean
+    prefix, the per-byte switch with the two-character escapes, `\u00XX` for the other control characters — is the
+    `escapeBytes` of the hand model (which `C10_escapeBytes` characterises byte by byte and `C10_escape_roundtrip`
+    proves to be inverted by an RFC unescape), for every destination, every source and every fuel; it never panics. -/
+theorem C10_escapeBytes_follows_source (dst src : Bytes) (fuel : Nat) (tape : Array UInt64) :
+    ∃ s, runFun goFuns goescapeBytes fuel ⟨[("dst", .bytes dst), ("src", .bytes src)], tape⟩ =
+          .ret s [.bytes (escapeBytes dst src)] ∧ s.tape = tape :=
+  escapeBytes_sim dst src fuel tape
 
 end SJ.Properties.C10
